@@ -116,7 +116,7 @@ int parse_instruction_avr8(AsmContext *asm_context, char *instr)
       break;
     }
 
-    if (operand_count > 2)
+    if (operand_count >= 2)
     {
       print_error_opcount(asm_context, instr);
       return -1;
